@@ -9,7 +9,7 @@ ASSUMPTIONS = [
     'the model covers the decorator and the composite helpers; the bodies are modelled under C03/C04',
 ]
 RULE = ('call suite: every entry point (110 calls over the 80 entry points, composite helpers included) x reply kinds (valid, negative, 0x78 then '
-        'negative, truncated, bad echo, wrong service, invalid 7F frame, silence) x all 8 switch combinations. distinct = distinct (call, reply kind, switches); '
+        'negative, a 2020-only code under the 2006 / 2013 edition, truncated, bad echo, wrong service, invalid 7F frame, silence) x an earlier call on the same client (none / timed out / refused / configuration error) x all 8 switch combinations. distinct = distinct (call, reply kind, switches); '
         'non-trivial = the reply was not accepted as success')
 
 
@@ -30,6 +30,9 @@ def reply_kinds(frame, good, rng):
         'empty': [b''],
         'unknown_sid': [b'\x00\x01'],
         'silence': [],
+        # a code that only the 2020 edition lists, sent to a client that enforces the 2006 edition: still a negative response, whatever the switches
+        'negative_2020code@2006': [bytes([0x7F, sid, 0x5D])],
+        'negative_2020code_b@2013': [bytes([0x7F, sid, 0x34])],
     }
     if len(good) > 1:
         ks['truncated1'] = [good[:1]]
@@ -60,14 +63,27 @@ def suite_call(ctx):
         frame = st['f']
         good = entries.good_reply(frame, c, client.config)
         kinds = reply_kinds(frame, good, rng)
-        names = sorted(kinds) if ctx.thorough else ['valid', 'negative', 'pending_negative', 'invalid7f', 'silence'] + rng.sample(
-            sorted(set(kinds) - {'valid', 'negative', 'pending_negative', 'invalid7f', 'silence'}), 3)
+        names = sorted(kinds) if ctx.thorough else ['valid', 'negative', 'pending_negative', 'invalid7f', 'silence', 'negative_2020code@2006'] + rng.sample(
+            sorted(set(kinds) - {'valid', 'negative', 'pending_negative', 'invalid7f', 'silence', 'negative_2020code@2006'}), 3)
         for kn in names:
             frames = kinds[kn]
             results = {}
+            std = int(kn.split('@')[1]) if '@' in kn else 2020
+            if std != 2020 and 'standard_version' in c.cfg:
+                continue
+            # what happened before on the same client must not matter: a call that timed out / was refused / hit a configuration error first
+            prelude = rng.choice(['none', 'none', 'timeout', 'valueerror', 'config'])
+            skip = False
             for sw in combos:
-                cfg = cl.Cfg(rt=3000, p2=1000, p2s=2000, exc=sw)
+                cfg = cl.Cfg(rt=3000, p2=1000, p2s=2000, exc=sw, std=std)
                 client, conn = cl.make_client(cfg, extra=c.config())
+                if prelude == 'timeout':
+                    conn.responder = lambda p: []
+                    cl.observe_outer(conn, lambda: client.tester_present())
+                elif prelude == 'valueerror':
+                    cl.observe_outer(conn, lambda: client.ecu_reset(0x100))
+                elif prelude == 'config':
+                    cl.observe_outer(conn, lambda: client.read_data_by_identifier(0x9999))
                 n = {'i': 0}
 
                 def responder(p, n=n, frames=frames):
@@ -78,9 +94,15 @@ def suite_call(ctx):
                 conn.responder = responder
                 how, verdict, flags, payload, exc, r = cl.observe_outer(conn, lambda: c.invoke(client))
                 nsend = sum(1 for op in conn.log if op[0] == 'send')
+                if nsend == 0 and std != 2020:
+                    skip = True                 # the older edition refuses this call locally: nothing to deliver
+                    break
                 results[sw] = (how, verdict, flags, payload, nsend)
+            if skip:
+                continue
             base = results[(True, True, True)]
-            rec = {'site': c.name, 'call': c.desc(), 'reply_kind': kn, 'frames': [f.hex() for f in frames]}
+            rec = {'site': c.name, 'call': c.desc(), 'reply_kind': kn, 'frames': [f.hex() for f in frames], 'standard_version': std, 'earlier_call_on_this_client': prelude}
+            s.count('prelude:' + prelude)
             for sw in combos:
                 how, verdict, flags, payload, nsend = results[sw]
                 s.evaluations += 1
